@@ -196,15 +196,29 @@ def digits_pattern(rnd, n, kind=None):
     return [rnd.randint(0, 3) for _ in range(n)]
 
 
+class LibraryMisbehaved(Exception):
+    """the library handed the workload generator something malformed (e.g. a children list of the wrong length)"""
+
+
+def _kids(a5, c, want):
+    k = a5.cell_to_children(c)
+    if len(k) != want:
+        raise LibraryMisbehaved('cell_to_children(%r) returned %d cells, expected %d' % (c, len(k), want))
+    return k
+
+
 def cell_by_path(a5, face, seg, digits):
     """descend from the world cell through cell_to_children only: face index, segment index, digit choices.
     resolution = -1 (no face), 0 (face only), 1 (face+seg), 1+len(digits)"""
-    c = a5.cell_to_children(0, 0)[face]
+    res0 = a5.cell_to_children(0, 0)
+    if len(res0) != 12:
+        raise LibraryMisbehaved('cell_to_children(0, 0) returned %d cells, expected 12' % len(res0))
+    c = res0[face]
     if seg is None:
         return c
-    c = a5.cell_to_children(c)[seg]
+    c = _kids(a5, c, 5)[seg]
     for d in digits:
-        c = a5.cell_to_children(c)[d]
+        c = _kids(a5, c, 4)[d]
     return c
 
 
